@@ -35,3 +35,464 @@ Definition uuid_tables_ok : bool :=
 
 Lemma uuid_tables_ok_true : uuid_tables_ok = true.
 Proof. vm_compute. reflexivity. Qed.
+
+(* ====================================================================================== *)
+(* Dictionary-level facts (UUIDDict): record, generate_missing, and sequences of record /  *)
+(* existence-check instructions.  No size bound anywhere: induction over the lists.        *)
+(* ====================================================================================== *)
+From Coq Require Import Arith PeanoNat.
+From RPFT Require Import Base.PyStrFacts.
+
+Lemma tbl_eqb_eq a b : tbl_eqb a b = true -> a = b.
+Proof.
+  revert b. induction a as [|[s x] a IH]; intros [|[t y] b] H; cbn in H; try discriminate; [reflexivity|].
+  apply andb_true_iff in H as [H H3]. apply andb_true_iff in H as [H1 H2].
+  apply str_eqb_eq in H1. apply N.eqb_eq in H2. apply IH in H3. subst. reflexivity.
+Qed.
+
+Lemma strs_eqb_eq a b : strs_eqb a b = true -> a = b.
+Proof.
+  revert b. induction a as [|s a IH]; intros [|t b] H; cbn in H; try discriminate; [reflexivity|].
+  apply andb_true_iff in H as [H1 H2]. apply str_eqb_eq in H1. apply IH in H2. subst. reflexivity.
+Qed.
+
+Lemma uuid_tables_same : uuid_action_record = uuid_action_assign /\ uuid_case_record = uuid_case_assign.
+Proof.
+  pose proof uuid_tables_ok_true as H. unfold uuid_tables_ok in H.
+  repeat (apply andb_true_iff in H as [H ?]).
+  split; [apply tbl_eqb_eq|apply strs_eqb_eq]; assumption.
+Qed.
+
+(* ---- equality on uuids ---- *)
+Lemma uuid_eqb_eq a b : uuid_eqb a b = true <-> a = b.
+Proof.
+  destruct a as [s|n], b as [t|m]; cbn; split; intros H; try discriminate.
+  - apply str_eqb_eq in H. subst. reflexivity.
+  - injection H as ->. apply str_eqb_refl.
+  - apply Nat.eqb_eq in H. subst. reflexivity.
+  - injection H as ->. apply Nat.eqb_refl.
+Qed.
+
+Lemma pyuuid_eqb_eq a b : pyuuid_eqb a b = true <-> a = b.
+Proof.
+  destruct a as [x|], b as [y|]; cbn; split; intros H; try discriminate; try reflexivity.
+  - apply uuid_eqb_eq in H. subst. reflexivity.
+  - injection H as ->. apply uuid_eqb_eq. reflexivity.
+Qed.
+
+Definition name_dec : forall a b : name, {a = b} + {a <> b} := list_eq_dec N.eq_dec.
+
+Lemma truthy_fresh m : truthy (Some (Fresh m)) = true.
+Proof. reflexivity. Qed.
+
+Lemma truthy_none : truthy None = false.
+Proof. reflexivity. Qed.
+
+(* ---- dget / dset / dhas ---- *)
+Lemma dget_dset_same d n u : dget (dset d n u) n = Some u.
+Proof. apply (oget_oset_same str_eqb str_eqb_eq). Qed.
+
+Lemma dget_dset_other d n u n2 : n2 <> n -> dget (dset d n u) n2 = dget d n2.
+Proof. apply (oget_oset_other str_eqb str_eqb_eq). Qed.
+
+Lemma dset_nodup d n u : NoDup (map fst d) -> NoDup (map fst (dset d n u)).
+Proof. apply (oset_nodup str_eqb str_eqb_eq). Qed.
+
+Lemma dhas_dget d n : dhas d n = true <-> exists v, dget d n = Some v.
+Proof.
+  unfold dhas, ocontains, dget. destruct (oget str_eqb d n) as [v|]; split.
+  - intros _. exists v. reflexivity.
+  - reflexivity.
+  - discriminate.
+  - intros [v H]. discriminate.
+Qed.
+
+Lemma dhas_false_dget d n : dhas d n = false <-> dget d n = None.
+Proof.
+  unfold dhas, ocontains, dget. destruct (oget str_eqb d n) as [v|]; split; congruence.
+Qed.
+
+Lemma dget_in d n v : dget d n = Some v -> In (n, v) d.
+Proof.
+  unfold dget. induction d as [|[k w] r IH]; cbn; [discriminate|].
+  destruct (str_eqb k n) eqn:E.
+  - apply str_eqb_eq in E. subst k. intros H. injection H as ->. left. reflexivity.
+  - intros H. right. apply IH, H.
+Qed.
+
+Lemma in_dget d n v : NoDup (map fst d) -> In (n, v) d -> dget d n = Some v.
+Proof.
+  unfold dget. induction d as [|[k w] r IH]; cbn; [intros _ []|].
+  intros Hnd Hin. inversion Hnd as [|x l Hnotin Hnd']; subst.
+  destruct Hin as [Heq|Hin].
+  - injection Heq as -> ->. rewrite str_eqb_refl. reflexivity.
+  - destruct (str_eqb k n) eqn:E.
+    + apply str_eqb_eq in E. subst k. exfalso. apply Hnotin.
+      apply (in_map fst) in Hin. exact Hin.
+    + apply IH; assumption.
+Qed.
+
+Lemma dget_key_in d n v : dget d n = Some v -> In n (map fst d).
+Proof. intros H. apply dget_in in H. apply (in_map fst) in H. exact H. Qed.
+
+(* ---- record ---- *)
+Lemma record_ok_cases d n u d' : record d n u = Ok d' ->
+  (exists r, dget d n = Some r /\ truthy r = true /\ (truthy u = false \/ u = r) /\ d' = d)
+  \/ ((forall r, dget d n = Some r -> truthy r = false) /\ d' = dset d n u).
+Proof.
+  unfold record. destruct (dget d n) as [r|] eqn:Eg.
+  - destruct (truthy r) eqn:Er.
+    + destruct (truthy u) eqn:Eu; cbn [andb].
+      * destruct (pyuuid_eqb u r) eqn:Ee; cbn [negb]; [|discriminate].
+        intros H. injection H as <-. left. exists r. apply pyuuid_eqb_eq in Ee.
+        repeat split; auto.
+      * intros H. injection H as <-. left. exists r. repeat split; auto.
+    + intros H. injection H as <-. right. split; [|reflexivity].
+      intros r' Hr'. injection Hr' as <-. exact Er.
+  - cbn [truthy]. intros H. injection H as <-. right. split; [|reflexivity]. intros r' Hr'. discriminate.
+Qed.
+
+Lemma record_err_cases d n u e : record d n u = Err e ->
+  e = EConflict /\ exists r, dget d n = Some r /\ truthy r = true /\ truthy u = true /\ u <> r.
+Proof.
+  unfold record. destruct (dget d n) as [r|] eqn:Eg.
+  - destruct (truthy r) eqn:Er; [|discriminate].
+    destruct (truthy u) eqn:Eu; cbn [andb]; [|discriminate].
+    destruct (pyuuid_eqb u r) eqn:Ee; cbn [negb]; [discriminate|].
+    intros H. injection H as <-. split; [reflexivity|]. exists r. repeat split; auto.
+    intros Heq. apply pyuuid_eqb_eq in Heq. congruence.
+  - cbn [truthy]. discriminate.
+Qed.
+
+(* a truthy binding is never changed by record *)
+Lemma record_stable d n u d' n' r : record d n u = Ok d' ->
+  dget d n' = Some r -> truthy r = true -> dget d' n' = Some r.
+Proof.
+  intros H Hg Ht. apply record_ok_cases in H as [(r0 & _ & _ & _ & ->)|[Hf ->]]; [exact Hg|].
+  destruct (name_dec n' n) as [->|Hne].
+  - apply Hf in Hg. congruence.
+  - rewrite dget_dset_other by exact Hne. exact Hg.
+Qed.
+
+(* after record the name is a key, and a truthy uuid that was accepted IS the binding *)
+Lemma record_bound d n u d' : record d n u = Ok d' ->
+  dhas d' n = true /\ (truthy u = true -> dget d' n = Some u).
+Proof.
+  intros H. apply record_ok_cases in H as [(r0 & Hg & Ht & Hu & ->)|[Hf ->]].
+  - split; [apply dhas_dget; eauto|]. intros Htu. destruct Hu as [Hu|Hu]; congruence.
+  - split; [apply dhas_dget; exists u; apply dget_dset_same|]. intros _. apply dget_dset_same.
+Qed.
+
+Lemma record_has d n u d' n' : record d n u = Ok d' -> dhas d n' = true -> dhas d' n' = true.
+Proof.
+  intros H Hh. apply record_ok_cases in H as [(r0 & _ & _ & _ & ->)|[Hf ->]]; [exact Hh|].
+  destruct (name_dec n' n) as [->|Hne].
+  - apply dhas_dget. exists u. apply dget_dset_same.
+  - apply dhas_dget. rewrite dget_dset_other by exact Hne. apply dhas_dget. exact Hh.
+Qed.
+
+(* every binding after record was there before or is the recorded one *)
+Lemma record_origin d n u d' n' v : record d n u = Ok d' ->
+  dget d' n' = Some v -> dget d n' = Some v \/ (n' = n /\ v = u).
+Proof.
+  intros H Hg. apply record_ok_cases in H as [(r0 & _ & _ & _ & ->)|[Hf ->]]; [left; exact Hg|].
+  destruct (name_dec n' n) as [->|Hne].
+  - rewrite dget_dset_same in Hg. injection Hg as <-. right. split; reflexivity.
+  - rewrite dget_dset_other in Hg by exact Hne. left. exact Hg.
+Qed.
+
+Lemma record_nodup d n u d' : record d n u = Ok d' -> NoDup (map fst d) -> NoDup (map fst d').
+Proof.
+  intros H Hnd. apply record_ok_cases in H as [(r0 & _ & _ & _ & ->)|[Hf ->]]; [exact Hnd|].
+  apply dset_nodup, Hnd.
+Qed.
+
+(* recording what the dictionary already says changes nothing *)
+Lemma record_agree d n u r : dget d n = Some r -> truthy r = true -> (truthy u = false \/ u = r) ->
+  record d n u = Ok d.
+Proof.
+  intros Hg Ht Hu. unfold record. rewrite Hg, Ht. destruct Hu as [Hu| ->].
+  - rewrite Hu. reflexivity.
+  - rewrite Ht. cbn [andb]. replace (pyuuid_eqb r r) with true; [reflexivity|].
+    symmetry. apply pyuuid_eqb_eq. reflexivity.
+Qed.
+
+(* ---- gen_missing ---- *)
+Lemma gen_missing_keys d : forall c d' c', gen_missing d c = (d', c') -> map fst d' = map fst d /\ c <= c'.
+Proof.
+  induction d as [|[k v] r IH]; intros c d' c' H; cbn in H.
+  - injection H as <- <-. split; [reflexivity|lia].
+  - destruct (truthy v).
+    + destruct (gen_missing r c) as [r' c1] eqn:E. injection H as <- <-.
+      apply IH in E as [E1 E2]. cbn. split; [f_equal; exact E1|exact E2].
+    + destruct (gen_missing r (S c)) as [r' c1] eqn:E. injection H as <- <-.
+      apply IH in E as [E1 E2]. cbn. split; [f_equal; exact E1|lia].
+Qed.
+
+Lemma gen_missing_dget d : forall c d' c' n, gen_missing d c = (d', c') ->
+  match dget d n with
+  | None => dget d' n = None
+  | Some v => if truthy v then dget d' n = Some v
+              else exists j, c <= j < c' /\ dget d' n = Some (Some (Fresh j))
+  end.
+Proof.
+  unfold dget. induction d as [|[k v] r IH]; intros c d' c' n H; cbn in H.
+  - injection H as <- <-. reflexivity.
+  - destruct (truthy v) eqn:Ev.
+    + destruct (gen_missing r c) as [r' c1] eqn:E. injection H as <- <-. cbn.
+      destruct (str_eqb k n); [rewrite Ev; reflexivity|]. apply (IH _ _ _ n E).
+    + destruct (gen_missing r (S c)) as [r' c1] eqn:E. injection H as <- <-. cbn.
+      pose proof (gen_missing_keys _ _ _ _ E) as [_ Hle].
+      destruct (str_eqb k n).
+      * rewrite Ev. exists c. split; [lia|reflexivity].
+      * pose proof (IH _ _ _ n E) as Hn. destruct (oget str_eqb r n) as [w|]; [|exact Hn].
+        destruct (truthy w); [exact Hn|]. destruct Hn as (j & Hj & Hg). exists j. split; [lia|exact Hg].
+Qed.
+
+Lemma gen_missing_truthy d : forall c d' c' n v, gen_missing d c = (d', c') -> dget d' n = Some v -> truthy v = true.
+Proof.
+  intros c d' c' n v H Hg. pose proof (gen_missing_dget d c d' c' n H) as Hn.
+  destruct (dget d n) as [w|]; [|congruence].
+  destruct (truthy w) eqn:Ew; [congruence|]. destruct Hn as (j & _ & Hj). rewrite Hj in Hg. injection Hg as <-. reflexivity.
+Qed.
+
+Lemma gen_missing_all_truthy d : forall c d' c', gen_missing d c = (d', c') ->
+  forallb (fun kv => truthy (snd kv)) d' = true.
+Proof.
+  induction d as [|[k v] r IH]; intros c d' c' H; cbn in H.
+  - injection H as <- <-. reflexivity.
+  - destruct (truthy v) eqn:Ev.
+    + destruct (gen_missing r c) as [r' c1] eqn:E. injection H as <- <-. cbn. rewrite Ev. apply (IH _ _ _ E).
+    + destruct (gen_missing r (S c)) as [r' c1] eqn:E. injection H as <- <-. cbn. apply (IH _ _ _ E).
+Qed.
+
+(* on a dictionary without falsy values generate_missing_uuids does nothing *)
+Lemma gen_missing_id d c : forallb (fun kv => truthy (snd kv)) d = true -> gen_missing d c = (d, c).
+Proof.
+  induction d as [|[k v] r IH]; cbn; [reflexivity|]. intros H. apply andb_true_iff in H as [H1 H2].
+  rewrite H1, (IH H2). reflexivity.
+Qed.
+
+(* where a Fresh value of the result comes from *)
+Lemma gen_missing_fresh_origin d c d' c' n j : gen_missing d c = (d', c') ->
+  dget d' n = Some (Some (Fresh j)) -> dget d n = Some (Some (Fresh j)) \/ c <= j < c'.
+Proof.
+  intros H Hg. pose proof (gen_missing_dget d c d' c' n H) as Hn.
+  destruct (dget d n) as [w|]; [|congruence].
+  destruct (truthy w) eqn:Ew; [left; congruence|]. destruct Hn as (j' & Hj & Hg'). right.
+  rewrite Hg' in Hg. injection Hg as <-. exact Hj.
+Qed.
+
+(* two names never receive the same invented uuid *)
+Lemma gen_missing_inj d : forall c d' c' n1 n2 j, gen_missing d c = (d', c') ->
+  (forall n m, In (n, Some (Fresh m)) d -> m < c) ->
+  dget d' n1 = Some (Some (Fresh j)) -> dget d' n2 = Some (Some (Fresh j)) -> c <= j -> n1 = n2.
+Proof.
+  induction d as [|[k v] r IH]; intros c d' c' n1 n2 j H Hold H1 H2 Hj; cbn in H.
+  - injection H as <- <-. discriminate.
+  - assert (Hold' : forall n m, In (n, Some (Fresh m)) r -> m < c) by (intros n m Hi; apply (Hold n m); right; exact Hi).
+    destruct (truthy v) eqn:Ev.
+    + destruct (gen_missing r c) as [r' c1] eqn:E. injection H as <- <-.
+      unfold dget in H1, H2. cbn in H1, H2.
+      destruct (str_eqb k n1) eqn:E1; destruct (str_eqb k n2) eqn:E2.
+      * apply str_eqb_eq in E1, E2. congruence.
+      * injection H1 as ->. exfalso. specialize (Hold k j (or_introl eq_refl)). lia.
+      * injection H2 as ->. exfalso. specialize (Hold k j (or_introl eq_refl)). lia.
+      * apply (IH _ _ _ n1 n2 j E Hold' H1 H2 Hj).
+    + destruct (gen_missing r (S c)) as [r' c1] eqn:E. injection H as <- <-.
+      assert (Hrest : forall n, dget r' n = Some (Some (Fresh c)) -> False).
+      { intros n Hn. apply (gen_missing_fresh_origin _ _ _ _ _ _ E) in Hn as [Hn|Hn]; [|lia].
+        apply dget_in in Hn. apply Hold' in Hn. lia. }
+      unfold dget in H1, H2. cbn in H1, H2.
+      destruct (str_eqb k n1) eqn:E1; destruct (str_eqb k n2) eqn:E2.
+      * apply str_eqb_eq in E1, E2. congruence.
+      * injection H1 as <-. exfalso. apply (Hrest n2 H2).
+      * injection H2 as <-. exfalso. apply (Hrest n1 H1).
+      * assert (Hj' : S c <= j).
+        { destruct (Nat.eq_dec j c) as [->|Hne]; [exfalso; apply (Hrest n1 H1)|lia]. }
+        apply (IH _ _ _ n1 n2 j E); auto.
+        intros n m Hi. apply Hold' in Hi. lia.
+Qed.
+
+(* ---- udict: sel / upd ---- *)
+Lemma kind_dec : forall a b : kind, {a = b} + {a <> b}.
+Proof. decide equality. Qed.
+
+Lemma sel_upd_same k ud d : sel k (upd k ud d) = d.
+Proof. destruct k; reflexivity. Qed.
+
+Lemma sel_upd_other k k' ud d : k <> k' -> sel k' (upd k ud d) = sel k' ud.
+Proof. destruct k, k'; try congruence; reflexivity. Qed.
+
+Lemma ctr_upd k ud d : ctr (upd k ud d) = ctr ud.
+Proof. destruct k; reflexivity. Qed.
+
+Lemma upd_sel k ud : upd k ud (sel k ud) = ud.
+Proof. destruct k, ud; reflexivity. Qed.
+
+(* [ext ud ud']: ud' extends ud — what every record/check instruction guarantees *)
+Record ext (ud ud' : udict) : Prop := {
+  ext_bound : forall k n u, dget (sel k ud) n = Some u -> truthy u = true -> dget (sel k ud') n = Some u;
+  ext_has : forall k n, dhas (sel k ud) n = true -> dhas (sel k ud') n = true;
+  ext_ctr : ctr ud' = ctr ud;
+  ext_nodup : forall k, NoDup (map fst (sel k ud)) -> NoDup (map fst (sel k ud')) }.
+
+Lemma ext_refl ud : ext ud ud.
+Proof. constructor; auto. Qed.
+
+Lemma ext_trans a b c : ext a b -> ext b c -> ext a c.
+Proof.
+  intros [B1 H1 C1 N1] [B2 H2 C2 N2]. constructor; auto. congruence.
+Qed.
+
+Lemma record_k_ext k ud n u ud' : record_k k ud n u = Ok ud' -> ext ud ud'.
+Proof.
+  unfold record_k. destruct (record (sel k ud) n u) as [d|e] eqn:E; [|discriminate].
+  intros H. injection H as <-. constructor.
+  - intros k' n' r Hg Ht. destruct (kind_dec k k') as [<-|Hne].
+    + rewrite sel_upd_same. apply (record_stable _ _ _ _ _ _ E Hg Ht).
+    + rewrite sel_upd_other by exact Hne. exact Hg.
+  - intros k' n' Hh. destruct (kind_dec k k') as [<-|Hne].
+    + rewrite sel_upd_same. apply (record_has _ _ _ _ _ E Hh).
+    + rewrite sel_upd_other by exact Hne. exact Hh.
+  - apply ctr_upd.
+  - intros k' Hnd. destruct (kind_dec k k') as [<-|Hne].
+    + rewrite sel_upd_same. apply (record_nodup _ _ _ _ E Hnd).
+    + rewrite sel_upd_other by exact Hne. exact Hnd.
+Qed.
+
+Lemma record_k_bound k ud n u ud' : record_k k ud n u = Ok ud' ->
+  dhas (sel k ud') n = true /\ (truthy u = true -> dget (sel k ud') n = Some u).
+Proof.
+  unfold record_k. destruct (record (sel k ud) n u) as [d|e] eqn:E; [|discriminate].
+  intros H. injection H as <-. rewrite sel_upd_same. apply (record_bound _ _ _ _ E).
+Qed.
+
+Lemma record_k_origin k ud n u ud' k' n' v : record_k k ud n u = Ok ud' ->
+  dget (sel k' ud') n' = Some v -> dget (sel k' ud) n' = Some v \/ (k' = k /\ n' = n /\ v = u).
+Proof.
+  unfold record_k. destruct (record (sel k ud) n u) as [d|e] eqn:E; [|discriminate].
+  intros H Hg. injection H as <-. destruct (kind_dec k k') as [<-|Hne].
+  - rewrite sel_upd_same in Hg. apply (record_origin _ _ _ _ _ _ E) in Hg as [Hg|[-> ->]]; [left; exact Hg|].
+    right. repeat split; reflexivity.
+  - rewrite sel_upd_other in Hg by exact Hne. left. exact Hg.
+Qed.
+
+Lemma record_k_err k ud n u e : record_k k ud n u = Err e ->
+  e = EConflict /\ exists r, dget (sel k ud) n = Some r /\ truthy r = true /\ truthy u = true /\ u <> r.
+Proof.
+  unfold record_k. destruct (record (sel k ud) n u) as [d|e'] eqn:E; [discriminate|].
+  intros H. injection H as <-. apply (record_err_cases _ _ _ _ E).
+Qed.
+
+Lemma record_k_agree k ud n u r : dget (sel k ud) n = Some r -> truthy r = true ->
+  (truthy u = false \/ u = r) -> record_k k ud n u = Ok ud.
+Proof.
+  intros Hg Ht Hu. unfold record_k. rewrite (record_agree _ _ _ _ Hg Ht Hu), upd_sel. reflexivity.
+Qed.
+
+(* ---- generate_missing on the pair of dictionaries ---- *)
+Lemma generate_missing_cases ud : exists f' g' c1 c2,
+  gen_missing (fd ud) (ctr ud) = (f', c1) /\ gen_missing (gd ud) c1 = (g', c2)
+  /\ generate_missing ud = {| fd := f'; gd := g'; ctr := c2 |}.
+Proof.
+  unfold generate_missing. destruct (gen_missing (fd ud) (ctr ud)) as [f' c1].
+  destruct (gen_missing (gd ud) c1) as [g' c2] eqn:Eg. exists f', g', c1, c2.
+  split; [reflexivity|]. split; [exact Eg|reflexivity].
+Qed.
+
+Lemma generate_missing_keys ud k : map fst (sel k (generate_missing ud)) = map fst (sel k ud).
+Proof.
+  destruct (generate_missing_cases ud) as (f' & g' & c1 & c2 & Hf & Hg & ->).
+  destruct k; cbn [sel fd gd ctr]; [apply (gen_missing_keys _ _ _ _ Hg)|apply (gen_missing_keys _ _ _ _ Hf)].
+Qed.
+
+Lemma generate_missing_ctr ud : ctr ud <= ctr (generate_missing ud).
+Proof.
+  destruct (generate_missing_cases ud) as (f' & g' & c1 & c2 & Hf & Hg & ->). cbn [sel fd gd ctr].
+  apply gen_missing_keys in Hf as [_ Hf]. apply gen_missing_keys in Hg as [_ Hg]. lia.
+Qed.
+
+Lemma generate_missing_bound ud k n u : dget (sel k ud) n = Some u -> truthy u = true ->
+  dget (sel k (generate_missing ud)) n = Some u.
+Proof.
+  intros Hg Ht. destruct (generate_missing_cases ud) as (f' & g' & c1 & c2 & Hf & Hgg & ->).
+  destruct k; cbn [sel fd gd ctr] in *.
+  - pose proof (gen_missing_dget _ _ _ _ n Hgg) as Hn. rewrite Hg, Ht in Hn. exact Hn.
+  - pose proof (gen_missing_dget _ _ _ _ n Hf) as Hn. rewrite Hg, Ht in Hn. exact Hn.
+Qed.
+
+Lemma generate_missing_has ud k n : dhas (sel k (generate_missing ud)) n = dhas (sel k ud) n.
+Proof.
+  destruct (generate_missing_cases ud) as (f' & g' & c1 & c2 & Hf & Hgg & ->).
+  assert (Hgen : forall d c d' c', gen_missing d c = (d', c') -> dhas d' n = dhas d n).
+  { intros d c d' c' H. pose proof (gen_missing_dget _ _ _ _ n H) as Hn.
+    destruct (dhas d n) eqn:Ed.
+    - apply dhas_dget in Ed as [v Ev]. rewrite Ev in Hn. apply dhas_dget.
+      destruct (truthy v); [eauto|]. destruct Hn as (j & _ & Hj). eauto.
+    - apply dhas_false_dget in Ed. rewrite Ed in Hn. apply dhas_false_dget. exact Hn. }
+  destruct k; cbn [sel fd gd ctr].
+  - apply (Hgen _ _ _ _ Hgg).
+  - apply (Hgen _ _ _ _ Hf).
+Qed.
+
+Lemma generate_missing_truthy ud k n v : dget (sel k (generate_missing ud)) n = Some v -> truthy v = true.
+Proof.
+  destruct (generate_missing_cases ud) as (f' & g' & c1 & c2 & Hf & Hgg & ->).
+  destruct k; cbn [sel fd gd ctr]; intros H.
+  - apply (gen_missing_truthy _ _ _ _ _ _ Hgg H).
+  - apply (gen_missing_truthy _ _ _ _ _ _ Hf H).
+Qed.
+
+Lemma generate_missing_all_truthy ud k :
+  forallb (fun kv => truthy (snd kv)) (sel k (generate_missing ud)) = true.
+Proof.
+  destruct (generate_missing_cases ud) as (f' & g' & c1 & c2 & Hf & Hgg & ->).
+  destruct k; cbn [sel fd gd ctr].
+  - apply (gen_missing_all_truthy _ _ _ _ Hgg).
+  - apply (gen_missing_all_truthy _ _ _ _ Hf).
+Qed.
+
+Lemma generate_missing_id ud : (forall k, forallb (fun kv => truthy (snd kv)) (sel k ud) = true) ->
+  generate_missing ud = ud.
+Proof.
+  intros H. unfold generate_missing. rewrite (gen_missing_id _ _ (H KFlow)). cbn [sel].
+  rewrite (gen_missing_id _ _ (H KGroup)). destruct ud; reflexivity.
+Qed.
+
+(* a Fresh value after generate_missing was there before or is new (>= the old counter) *)
+Lemma generate_missing_fresh_origin ud k n j :
+  dget (sel k (generate_missing ud)) n = Some (Some (Fresh j)) ->
+  dget (sel k ud) n = Some (Some (Fresh j)) \/ ctr ud <= j < ctr (generate_missing ud).
+Proof.
+  destruct (generate_missing_cases ud) as (f' & g' & c1 & c2 & Hf & Hgg & ->).
+  pose proof (gen_missing_keys _ _ _ _ Hf) as [_ L1]. pose proof (gen_missing_keys _ _ _ _ Hgg) as [_ L2].
+  destruct k; cbn [sel fd gd ctr]; intros H.
+  - apply (gen_missing_fresh_origin _ _ _ _ _ _ Hgg) in H as [H|H]; [left; exact H|right; lia].
+  - apply (gen_missing_fresh_origin _ _ _ _ _ _ Hf) in H as [H|H]; [left; exact H|right; lia].
+Qed.
+
+(* the invented uuids are pairwise distinct across BOTH dictionaries *)
+Lemma generate_missing_inj ud k1 n1 k2 n2 j :
+  (forall k n m, In (n, Some (Fresh m)) (sel k ud) -> m < ctr ud) ->
+  dget (sel k1 (generate_missing ud)) n1 = Some (Some (Fresh j)) ->
+  dget (sel k2 (generate_missing ud)) n2 = Some (Some (Fresh j)) ->
+  ctr ud <= j -> k1 = k2 /\ n1 = n2.
+Proof.
+  intros Hold. destruct (generate_missing_cases ud) as (f' & g' & c1 & c2 & Hf & Hgg & ->).
+  pose proof (gen_missing_keys _ _ _ _ Hf) as [_ L1]. pose proof (gen_missing_keys _ _ _ _ Hgg) as [_ L2].
+  assert (HoldF : forall n m, In (n, Some (Fresh m)) (fd ud) -> m < ctr ud) by (intros n m; apply (Hold KFlow)).
+  assert (HoldG : forall n m, In (n, Some (Fresh m)) (gd ud) -> m < c1).
+  { intros n m Hi. apply (Hold KGroup) in Hi. lia. }
+  assert (RF : forall n, dget f' n = Some (Some (Fresh j)) -> ctr ud <= j -> j < c1).
+  { intros n Hn Hj. apply (gen_missing_fresh_origin _ _ _ _ _ _ Hf) in Hn as [Hn|Hn]; [|lia].
+    apply dget_in, HoldF in Hn. lia. }
+  assert (RG : forall n, dget g' n = Some (Some (Fresh j)) -> ctr ud <= j -> c1 <= j).
+  { intros n Hn Hj. apply (gen_missing_fresh_origin _ _ _ _ _ _ Hgg) in Hn as [Hn|Hn]; [|lia].
+    apply dget_in, (Hold KGroup) in Hn. lia. }
+  destruct k1, k2; cbn [sel fd gd ctr]; intros H1 H2 Hj.
+  - split; [reflexivity|]. apply (gen_missing_inj _ _ _ _ n1 n2 j Hgg HoldG H1 H2). apply (RG n1 H1 Hj).
+  - exfalso. pose proof (RG _ H1 Hj). pose proof (RF _ H2 Hj). lia.
+  - exfalso. pose proof (RF _ H1 Hj). pose proof (RG _ H2 Hj). lia.
+  - split; [reflexivity|]. apply (gen_missing_inj _ _ _ _ n1 n2 j Hf HoldF H1 H2 Hj).
+Qed.
